@@ -98,7 +98,14 @@ def same_tensor(a, b, exact=True, raw=False):
         # leg remembers its sub-sectors in the fusion record, a meta-fused one does not); signature and charge were compared above
         return None if tuple(a.s) == tuple(b.s) else f'signature {a.s} vs {b.s}'
     if a.get_legs() != b.get_legs():
-        return f'legs {a.get_legs()} vs {b.get_legs()}'
+        # a result sector that is identically zero may be stored as an explicit zero block under one setting and left out under the other
+        # (e.g. a trace over mismatched hard-fused legs): both describe the same array, so the comparison is repeated without zero blocks
+        a2, b2 = a.remove_zero_blocks(), b.remove_zero_blocks()
+        if (len(a2.get_blocks_charge()) or len(b2.get_blocks_charge())) and a2.get_legs() != b2.get_legs():
+            return f'legs {a.get_legs()} vs {b.get_legs()}'
+        if len(a2.get_blocks_charge()) == 0 and len(b2.get_blocks_charge()) == 0:
+            return None if tuple(a.s) == tuple(b.s) else f'signature {a.s} vs {b.s}'
+        a, b = a2, b2
     A, B = a.to_numpy(), b.to_numpy()
     if exact:
         if not np.array_equal(A, B):
